@@ -28,10 +28,18 @@ func (r *Report) fatal(kind, msg string) {
 
 func (o *Oblig) status() string {
 	if o.Kind == "cover" {
+		// vacuity guard: the entry (and at least one return path) must be satisfiable
+		anySat, allUnsat := false, len(o.Queries) > 0
 		for _, q := range o.Queries {
-			if q.Result == "unsat" {
-				return "VACUOUS"
+			if q.Result == "sat" {
+				anySat = true
 			}
+			if q.Result != "unsat" {
+				allUnsat = false
+			}
+		}
+		if allUnsat && !anySat {
+			return "VACUOUS"
 		}
 		return "ok"
 	}
@@ -133,6 +141,7 @@ func (r *Report) finish() int {
 	var failedNames []string
 	var knownSeen []string
 	var coverInconclusive []string
+	var slow []string
 	nq := 0
 	if r.E != nil {
 		E := r.E
@@ -167,6 +176,9 @@ func (r *Report) finish() int {
 			o := E.obligs[n]
 			for _, q := range o.Queries {
 				nq++
+				if q.Seconds > 1.0 {
+					slow = append(slow, fmt.Sprintf("%.1fs %s [%s] %s", q.Seconds, n, q.Solver, q.Path))
+				}
 				perSolver[q.Solver]++
 				solverSum += q.Seconds
 				if q.Seconds > solverMax {
@@ -257,6 +269,7 @@ func (r *Report) finish() int {
 	cov["not_decided_clauses"] = r.Cfg.NotDecided
 	cov["bounded_side_checks"] = r.Cfg.Bounded
 	cov["cover_checks_inconclusive"] = coverInconclusive
+	cov["slow_queries_over_1s"] = slow
 	var assumptions []string
 	if r.E != nil {
 		cov["functions_under_contract"] = r.E.verified
